@@ -13,4 +13,5 @@ pub mod stmt_gen;
 pub mod stmt_params;
 pub mod stmt_ref;
 pub mod translit;
+pub mod stmt_inv;
 pub mod props;
